@@ -292,8 +292,15 @@ func (adj *AdjRib) TableInfo(family bgp.Family) (*TableInfo, error) {
 	}
 	c := adj.Count([]bgp.Family{family})
 	a := adj.Accepted([]bgp.Family{family})
+	nd := 0
+	adj.walk([]bgp.Family{family}, func(d *destination) bool {
+		if len(d.knownPathList) > 0 {
+			nd++
+		}
+		return false
+	})
 	return &TableInfo{
-		NumDestination: c,
+		NumDestination: nd,
 		NumPath:        c,
 		NumAccepted:    a,
 	}, nil
